@@ -468,6 +468,19 @@ def check_C09(ctx):
         nline = lines.index(bad1) + 1
         longc.append((dict(files={"f.yaml": data}, cmd="lint", arg=b"f.yaml", **NOCOLOR), nline, bad1))
         ctx.nontriv(kind.encode() + bytes(str(n), "ascii") + bad1)
+    prec = []
+    for k in range(ctx.scale(6, 40)):
+        junk = b"".join(r.choice([b"  oops\n", b"  x: 1.2.3\n", b"\tnosep\n", b"  y:1\n", b"  fine: 2\n", b"  # note\n"]) for _ in range(r.randint(1, 3)))
+        body = b"2021/01/01:\n  a: 1\n  b: 2\n"
+        for cmd, files in (("lint", {"f.yaml": junk + body}), ("print", {"log.yaml": junk + body, "food.yaml": b""}), ("csv-db", {"food.yaml": junk + b"rec:\n  k: 1\n"}), ("reg", {"log.yaml": junk + body, "food.yaml": junk + b"a:\n  k: 1\n"})):
+            c = dict(files=files, cmd=cmd, **NOCOLOR)
+            if cmd == "lint": c["arg"] = b"f.yaml"
+            prec.append(c)
+    pres_ = cli_diff(ctx, prec, tag="C09:before-first-heading:")
+    for c, i in zip(prec, pres_):
+        ctx.tally("malformed_lines_before_the_first_heading", i["status"].split(":")[0])
+        if i["status"] != "ok" or (c["cmd"] == "lint" and i["stdout"].strip() != b"No errors found"):
+            ctx.violation("C09:line-before-first-heading-reported:" + c["cmd"], "%s on a file whose only odd lines stand before the first heading (they belong to no record): %s %r" % (c["cmd"], i["status"][:40], i["stdout"][:100]), dict(kind="cli", case=c, impl=i))
     tailc = []
     for k in range(ctx.scale(6, 40)):
         nbad = r.choice([1, 2, 3, 24, 25, 26, 40])
@@ -675,6 +688,17 @@ def check_C10(ctx):
         if i["status"] == "ok":
             ctx.violation("C10:success-on-read-fault:" + c["cmd"], "%s reports success although reading %s failed at byte %d" % ((c["cmd"],) + list(c["read_faults"].items())[0]), dict(kind="cli", case=c, impl=i))
     ctx.notes["command_level_read_faults"] = dict(cases=len(fcases), commands=len(forms))
+    # lint on a file that cannot be read to its end (a line of 70000 bytes, a directory entry behind it does not matter) AFTER many malformed lines: however many
+    # errors it has already listed, the run fails - it never ends "successfully" on a prefix
+    lcases = []
+    for nbad in (0, 1, 24, 25, 26, 60, 200):
+        lines = [b"rec:", b"  a: 1"] + [b"  bad%d" % j for j in range(nbad)] + [b"  " + b"y" * 70000 + b": 1", b"  after: 1"]
+        for silent in (False, True):
+            lcases.append(dict(files={"f.yaml": b"\n".join(lines) + b"\n"}, cmd="lint", arg=b"f.yaml", silent=silent, **NOCOLOR))
+    lres2 = cli_diff(ctx, lcases, tag="C10:lint-unreadable-tail:")
+    for c, i in zip(lcases, lres2):
+        if i["status"] == "ok":
+            ctx.violation("C10:lint-success-on-a-prefix", "lint exits with success on a file whose line %d has 70000 bytes" % (c["files"]["f.yaml"].count(b"\n", 0, c["files"]["f.yaml"].find(b"y" * 100)) + 1), dict(kind="cli", case=dict(c, files={"f.yaml": c["files"]["f.yaml"][:600] + b"..."}), impl=dict(i, stdout=i["stdout"][:600])))
     # a file that does not exist, through every command and every way of naming it
     mcases = []
     for form in forms + [dict(cmd="stats"), dict(cmd="lint", arg=b"nowhere.yaml")]:
